@@ -7,7 +7,6 @@ import (
 	"fmt"
 	"go/token"
 	"go/types"
-	"strings"
 )
 
 type symInt struct {
@@ -251,24 +250,63 @@ func strBinop(op token.Token, x, y value) value {
 	switch op {
 	case token.ADD:
 		return mkString(append(append([]value{}, a...), b...))
-	case token.EQL, token.NEQ:
-		var res value
-		if len(a) != len(b) {
-			res = false
-		} else {
-			parts := []string{"true"}
-			for i := range a {
-				parts = append(parts, "(= "+term(a[i], types.Uint8)+" "+term(b[i], types.Uint8)+")")
-			}
-			res = symBool{"(and " + strings.Join(parts, " ") + ")"}
+	case token.EQL:
+		return mkBool(seqEqTerm(a, b))
+	case token.NEQ:
+		return mkBool(notTerm(seqEqTerm(a, b)))
+	case token.LSS, token.LEQ, token.GTR, token.GEQ:
+		switch op {
+		case token.GTR:
+			return mkBool(seqLessTerm(b, a, false))
+		case token.GEQ:
+			return mkBool(seqLessTerm(b, a, true))
+		case token.LEQ:
+			return mkBool(seqLessTerm(a, b, true))
 		}
-		if op == token.NEQ {
-			if rb, ok := res.(bool); ok {
-				return !rb
-			}
-			return symBool{"(not " + res.(symBool).t + ")"}
-		}
-		return res
+		return mkBool(seqLessTerm(a, b, false))
 	}
 	panic(unsupported("sym string op " + op.String()))
+}
+
+// seqLessTerm is the term "a < b" (or "a <= b") in lexicographic byte order.
+func seqLessTerm(a, b []value, orEqual bool) string {
+	n := len(a)
+	if len(b) < n {
+		n = len(b)
+	}
+	// res for the common prefix exhausted:
+	var res string
+	switch {
+	case len(a) < len(b):
+		res = "true"
+	case len(a) == len(b) && orEqual:
+		res = "true"
+	default:
+		res = "false"
+	}
+	for i := n - 1; i >= 0; i-- {
+		x, xok := a[i].(byte)
+		y, yok := b[i].(byte)
+		if xok && yok {
+			switch {
+			case x < y:
+				res = "true"
+			case x > y:
+				res = "false"
+			}
+			continue
+		}
+		ta, tb := term(a[i], types.Uint8), term(b[i], types.Uint8)
+		if res == "true" {
+			res = "(bvule " + ta + " " + tb + ")"
+		} else if res == "false" {
+			res = "(bvult " + ta + " " + tb + ")"
+		} else {
+			res = "(or (bvult " + ta + " " + tb + ") (and (= " + ta + " " + tb + ") " + res + "))"
+		}
+	}
+	if X != nil && X.z != nil {
+		res = X.share(res, "Bool")
+	}
+	return res
 }
